@@ -184,6 +184,28 @@ CLAIMED = {
 
 NA = {}
 
+# rules added after the first descriptions were written (shares of sibling rules and new summaries); appended to the texts
+ADDED = {
+ "C02": " Also: the units the additive operators compare are those the operand expressions denote (C02-R7 = the unit rules of ^ and of * / with a plain number); the `to` arm is decided on the summary of eval::eval on an OPERATION node (helpers followed).",
+ "C03": " Also: prefix words add exactly their SI exponent and unit scales equal the reference table (C03-R8 = C05-R1/R2, two known unit-table defects listed); only commensurable units convert (C03-R9 = C02-R6).",
+ "C04": " Also: every dimension table is linear in the power (C04-R6); the exponent of a displayed unit is the decimal digits of the computed power in superscript (C04-R7: digit table, digit-function arguments proved <= 9, boundary exponents).",
+ "C06": " Also: the evaluator folds every operator of a group left to right, a `to` in a chain included (C06-R8 = C01-R6, summary of eval::eval on OPERATION nodes with two and three operators).",
+ "C07": " Also: a percent literal is its own decimal text / 100 (C07-R6 = C01-R5).",
+ "C09": " Also: in reconstruct the size that decides `sole` is taken after every change of the map; the power guard sees the real power (C09-R5 = C04-R1/R5). The direction parameter of apply_conversion is found by behaviour (bool or enum).",
+ "C12": " Also: the parser primitives consume exactly what they promise (C12-R7 = C06-R4); every slice of the text runs between positions the lexer reached (C12-R8 = C11-R1's index obligations for syntax::*); parse() hands the parser the very text it keeps for the spans (C12-R9).",
+ "C13": " Also: unit maps never keep cancelled entries, so equal quantities have equal representations (C13-R6 = C02-R1).",
+ "C14": " Also: one segment per build - no function on an asset's loading path commits, merges or opens a writer (C14-R6).",
+ "C16": " Also: every kind of session serves a built index (C16-R8 = C15-R3/R4/R6); a constant's source id resolves through the id->index map built from the decoded list (C16-R9).",
+ "C19": " Also: the binary's on-disk session answers like an in-memory one (C19-R5 = C14-R2, C15-R6); the 12-digit rendering is the faithful one (C19-R6 = C08-R1..R7); the exponent of a displayed unit is printed digit by digit (C19-R7).",
+}
+ALIAS_NOTE = (" Functions, types and fields renamed or moved against the reference tree (ref/fn_reference.json) are recognised by "
+              "signature / shape and call-graph position and analysed under the names the rules know (sa/aliases.py); a consistent "
+              "renaming preserves meaning, so this cannot hide a violation.")
+for k, extra in ADDED.items():
+    CLAIMED[k]["text"] = CLAIMED[k]["text"] + extra
+for k in CLAIMED:
+    CLAIMED[k]["note"] = CLAIMED[k]["note"] + ALIAS_NOTE
+
 checks = []
 for p in props:
     pid = p["id"]
